@@ -68,6 +68,22 @@ func unsupported_() []*Unsupported {
 				return &FileSpec{Name: "p.proto", Msgs: []*M{ok(), msg("Deep", nil, fld("Y", TString), dufld("Bad")), msg("Inner", nil, mfld("Items", "Deep").rep(), fld("X", TString)),
 					msg("U", nil, mfld("Sub", "Inner").nonnull(), fld("Str", TString))}}
 			}})
+	// a map whose key is not a string stays unmappable whatever gogoproto cast options the field carries
+	// (castkey / castvalue rename Go types, they do not make the key a string); also below a nested message
+	us = append(us,
+		&Unsupported{Name: "U-map-int-key-castkey", Cfg: func() *Config { return baseConfig("U", "Ok") }, Broken: []string{"U"}, Intact: []string{"Ok"}, Exclude: []string{"U.Bad"},
+			File: func() *FileSpec {
+				return &FileSpec{Name: "p.proto", Msgs: []*M{ok(), msg("U", nil, fld("Str", TString), mapfld("Bad", fld("v", TString)).key(TInt32).castkey("Code"))}}
+			}},
+		&Unsupported{Name: "U-map-int-key-castvalue", Cfg: func() *Config { return baseConfig("U", "Ok") }, Broken: []string{"U"}, Intact: []string{"Ok"}, Exclude: []string{"U.Bad"},
+			File: func() *FileSpec {
+				return &FileSpec{Name: "p.proto", Msgs: []*M{ok(), msg("U", nil, fld("Str", TString), mapfld("Bad", fld("v", TString)).key(TInt64).castvalue("Label"))}}
+			}},
+		&Unsupported{Name: "U-map-bool-key-castkey-depth1", Cfg: func() *Config { return baseConfig("U", "Ok") }, Broken: []string{"U"}, Intact: []string{"Ok"}, Exclude: []string{"U.Sub.Bad"},
+			File: func() *FileSpec {
+				return &FileSpec{Name: "p.proto", Msgs: []*M{ok(), msg("Inner", nil, fld("X", TString), mapfld("Bad", fld("v", TInt64)).key(TBool).castkey("Flag")),
+					msg("U", nil, mfld("Sub", "Inner"), fld("Str", TString))}}
+			}})
 	// an embedded message whose only field is the unmappable one: excluded, the embed contributes no field at all
 	us = append(us,
 		&Unsupported{Name: "U-embed-only-bad-by-key", Cfg: noTime("U", "Ok"), Broken: []string{"U"}, Intact: []string{"Ok"}, Exclude: []string{"Stamp.At"},
@@ -267,7 +283,7 @@ func observe(u *Unsupported, pluginBin, out string) []*Observation {
 // configuration lists are permuted; the generated file must be byte-identical.
 func observeDeterminism(pluginBin, out string, seed int64) []*Observation {
 	var res []*Observation
-	for _, name := range []string{"P-flags", "P-multi", "P-names", "P-mapopt", "P00"} {
+	for _, name := range []string{"P-flags", "P-multi", "P-names", "P-mapopt", "P00", "P-embed-2", "P-embed-mix", "P-embed-x", "P-oneof", "P-sorted", "P-custom", "P-embed-4"} {
 		base := findProgram(name)
 		o := &Observation{Name: "D-" + name, Mode: "determinism"}
 		res = append(res, o)
@@ -279,9 +295,9 @@ func observeDeterminism(pluginBin, out string, seed int64) []*Observation {
 		}
 		dir := filepath.Join(out, "D-"+name)
 		var first string
-		for run := 0; run < 8; run++ {
+		for run := 0; run < 16; run++ {
 			cfg := base.Cfg()
-			if run >= 4 {
+			if run >= 8 {
 				// permute every list of the configuration (rotation by run)
 				rot := func(l []string) []string {
 					if len(l) < 2 {
@@ -312,7 +328,7 @@ func observeDeterminism(pluginBin, out string, seed int64) []*Observation {
 			}
 			if content != first {
 				kind := "a repeated run on the same request"
-				if run >= 4 {
+				if run >= 8 {
 					kind = "a run with permuted configuration lists"
 				}
 				o.Failures = append(o.Failures, fmt.Sprintf("run %d (%s) produced a different file (%d vs %d bytes)", run, kind, len(content), len(first)))
@@ -328,7 +344,7 @@ func observeDeterminism(pluginBin, out string, seed int64) []*Observation {
 // with their declarations); with sort: true the three files must be byte-identical.
 func observeSorted(pluginBin, out string) []*Observation {
 	var res []*Observation
-	for _, name := range []string{"P-docs", "P-flags", "P-multi", "P-mini", "P-oneof", "P-embed", "P-embed-x", "P-nest", "P-names", "P-mapopt", "P-time", "P-sorted", "P-oneof-excl"} {
+	for _, name := range []string{"P-docs", "P-flags", "P-multi", "P-mini", "P-oneof", "P-embed", "P-embed-x", "P-nest", "P-names", "P-mapopt", "P-time", "P-sorted", "P-oneof-excl", "P-embed-2", "P-embed-4"} {
 		base := findProgram(name)
 		o := &Observation{Name: "S-" + name, Mode: "sorted"}
 		res = append(res, o)
